@@ -18,7 +18,7 @@ tvars == <<vars, l>>
 
 TraceInit ==
   /\ TLCSet(1, 1) /\ l = 1
-  /\ cfg = [pa |-> <<>>, ra |-> <<>>, tagged |-> FALSE, devs |-> {}] /\ pv = <<>> /\ rv = <<>>
+  /\ cfg = [pa |-> <<>>, ra |-> <<>>, tagged |-> FALSE, tags |-> 0, devs |-> {}] /\ pv = <<>> /\ rv = <<>>
   /\ pc = "done" /\ wire = <<>> /\ delivered = <<>> /\ invoked = FALSE /\ status = 0 /\ errname = "none"
   /\ rwire = <<>> /\ returned = <<>> /\ cerr = "none"
 Ev(e) == l <= Len(TraceLog) /\ TraceLog[l].ev = e
@@ -35,7 +35,7 @@ ClassOK(a, v, c) ==
   \/ c = "default" /\ a.mode = "default" /\ DefaultOf(a) \in AllowedDelivered(a, v)
 
 TReset == /\ Ev("reset") /\ pc = "done"
-          /\ cfg' = [pa |-> E.pa, ra |-> E.ra, tagged |-> E.tagged, devs |-> {}]
+          /\ cfg' = [pa |-> E.pa, ra |-> E.ra, tagged |-> E.tagged, tags |-> E.tags, devs |-> {}]
           /\ pv' = E.pv /\ rv' = E.rv
           /\ pc' = "encode" /\ wire' = <<>> /\ delivered' = <<>> /\ invoked' = FALSE /\ status' = 0 /\ errname' = "none"
           /\ rwire' = <<>> /\ returned' = <<>> /\ cerr' = "none"
@@ -56,7 +56,7 @@ TReject == /\ Ev("resp") /\ pc = "validate"                            \* answer
            /\ status' = E.status /\ errname' = E.errname /\ pc' = "cswitch" /\ l' = l + 1
            /\ UNCHANGED <<cfg, pv, rv, wire, delivered, invoked, rwire, returned, cerr>>
 TResp == /\ Ev("resp") /\ pc = "respond"
-         /\ E.status = (IF TagHit THEN 201 ELSE 200)
+         /\ E.status = DesignedStatus
          /\ \A j \in 1..Len(cfg.ra) : WhereOK(E.rwhere[j], AllowedWhere(cfg.ra[j], rv[j]))
          /\ status' = E.status /\ pc' = "cswitch" /\ l' = l + 1
          /\ UNCHANGED <<cfg, pv, rv, wire, delivered, invoked, errname, rwire, returned, cerr>>
